@@ -151,6 +151,13 @@ def check_fs(case, rec):
                                        + case.get("pad", "")) if perm else DaughtersDict(""),
             "sorted-list": DaughtersDict(sorted(flat)),
         }
+        half = len(perm) // 2
+        forms["sum"] = DaughtersDict(list(perm[:half])) + DaughtersDict(list(perm[half:]))
+        acc = DaughtersDict(list(perm[:half]))
+        acc += DaughtersDict(list(perm[half:]))
+        forms["in-place-sum"] = acc
+        kw = dict(Counter(perm[half:]))
+        forms["mixed-constructor"] = DaughtersDict(list(perm[:half]), **kw) if all(isinstance(k, str) and k not in ("iterable", "self") for k in kw) else DaughtersDict(list(perm))
         if all(n in B._to_map for n in flat) and flat:
             forms["pdgids"] = DecayMode.from_pdgids(0.5, [int(B._to_map[n]) for n in perm]).daughters
     for how, dd in forms.items():
